@@ -2,8 +2,11 @@
 package main
 
 import (
+	stderrors "errors"
 	"fmt"
+	"io/fs"
 	"reflect"
+	"syscall"
 
 	gerrors "github.com/acquirecloud/golibs/errors"
 	"google.golang.org/grpc/codes"
@@ -29,6 +32,13 @@ var withCode = map[string]codes.Code{
 	"ErrNotAuthorized": codes.PermissionDenied, "ErrInternal": codes.Internal, "ErrDataLoss": codes.DataLoss,
 	"ErrExhausted": codes.ResourceExhausted, "ErrUnimplemented": codes.Unimplemented, "ErrConflict": codes.FailedPrecondition,
 	"ErrCanceled": codes.Canceled,
+}
+
+// real OS errors that belong to a class through their own Is method
+var instances = map[string][]error{
+	"ErrNotExist":      {&fs.PathError{Op: "open", Path: "/nowhere", Err: syscall.ENOENT}},
+	"ErrExist":         {&fs.PathError{Op: "mkdir", Path: "/tmp", Err: syscall.EEXIST}, syscall.ENOTEMPTY},
+	"ErrNotAuthorized": {&fs.PathError{Op: "open", Path: "/root/x", Err: syscall.EACCES}, syscall.EPERM},
 }
 
 type obj struct {
@@ -67,69 +77,124 @@ func main() {
 					continue // embed position: innermost, outermost (and all positions for shallow chains)
 				}
 				for ti, text := range texts {
-					e := c.err
-					want := obj{7, "x" + text}
-					for d := 0; d <= depth; d++ {
-						if d == embedAt {
-							e = gerrors.EmbedObject(want, e)
+					for formIdx := 0; formIdx < 3; formIdx++ {
+						for instIdx := -1; instIdx < len(instances[c.name]); instIdx++ {
+							for objIdx := 0; objIdx < 4; objIdx++ {
+								if embedAt < 0 && objIdx > 0 {
+									continue
+								}
+								// the innermost error: the class itself, or (rotating) a real OS error that belongs to the class
+								e := c.err
+								inst := "class"
+								if instIdx >= 0 {
+									e = instances[c.name][instIdx]
+									inst = fmt.Sprintf("%T", e)
+								}
+								// the embedded object: a struct, or (rotating) a string / slice / map
+								var want any = obj{7, "x" + text}
+								switch objIdx {
+								case 1:
+									want = "s:" + text
+								case 2:
+									want = []any{float64(1), "two:" + text}
+								case 3:
+									want = map[string]any{"k": text, "n": float64(3)}
+								}
+								// wrapping form of each layer: a single %w, two %w verbs in one layer, errors.Join
+								form := []string{"%w", "%w+%w", "join"}[formIdx]
+								for d := 0; d <= depth; d++ {
+									if d == embedAt {
+										e = gerrors.EmbedObject(want, e)
+									}
+									if d < depth {
+										switch form {
+										case "%w":
+											e = fmt.Errorf("%s [layer %d]: %w", text, d, e)
+										case "%w+%w":
+											e = fmt.Errorf("%s [layer %d]: %w (while handling %w)", text, d, e, stderrors.New("plain side error"))
+										default:
+											if embedAt >= 0 && d >= embedAt {
+												e = fmt.Errorf("%s [layer %d]: %w", text, d, e) // Join puts a newline between messages: keep the marker pair intact
+											} else {
+												e = stderrors.Join(e, stderrors.New("plain side error"))
+											}
+										}
+									}
+								}
+								desc := fmt.Sprintf("class=%s innermost=%s depth=%d wrap=%s embedAt=%d text#%d", c.name, inst, depth, form, embedAt, ti)
+								evals++
+								nontriv++
+								g := gerrors.GRPCWrap(e)
+								if g == nil {
+									fail("wrap-nil "+c.name, desc+": GRPCWrap returned nil")
+									continue
+								}
+								if got := status.Code(g); got != code {
+									fail("code "+c.name, fmt.Sprintf("%s: GRPCWrap produced code %v, class maps to %v", desc, got, code))
+								}
+								if !gerrors.Is(g, c.err) {
+									fail("is-own-class "+c.name, desc+": Is(GRPCWrap(err), class) is false; error text "+fmt.Sprintf("%q", g.Error()))
+								}
+								for _, o := range classes {
+									if o.name != c.name && gerrors.Is(g, o.err) {
+										fail("is-other-class "+c.name+"->"+o.name, fmt.Sprintf("%s: Is(GRPCWrap(err), %s) is true", desc, o.name))
+									}
+								}
+								// the plain chain itself also keeps exactly its class
+								if !gerrors.Is(e, c.err) {
+									fail("is-plain "+c.name, desc+": Is(err, class) is false before wrapping")
+								}
+								g2 := gerrors.GRPCWrap(g)
+								if status.Code(g2) != status.Code(g) || g2.Error() != g.Error() {
+									fail("idempotent "+c.name, fmt.Sprintf("%s: GRPCWrap(GRPCWrap(err)) = %q/%v differs from GRPCWrap(err) = %q/%v", desc, g2.Error(), status.Code(g2), g.Error(), status.Code(g)))
+								}
+								if gerrors.GRPCStatusCode(g) != code {
+									fail("statuscode "+c.name, fmt.Sprintf("%s: GRPCStatusCode(GRPCWrap(err))=%v want %v", desc, gerrors.GRPCStatusCode(g), code))
+								}
+								extract := func(from error) (any, bool) {
+									switch want.(type) {
+									case obj:
+										var got obj
+										ok := gerrors.ExtractObject(from, &got)
+										return got, ok
+									case string:
+										var got string
+										ok := gerrors.ExtractObject(from, &got)
+										return got, ok
+									case []any:
+										var got []any
+										ok := gerrors.ExtractObject(from, &got)
+										return got, ok
+									default:
+										var got map[string]any
+										ok := gerrors.ExtractObject(from, &got)
+										return got, ok
+									}
+								}
+								kind := fmt.Sprintf("%T", want)
+								if embedAt >= 0 {
+									if got, ok := extract(e); !ok || !reflect.DeepEqual(got, want) {
+										fail("extract-plain "+kind, fmt.Sprintf("%s: embedded %s object not extractable before GRPCWrap (got %#v, want %#v)", desc, kind, got, want))
+									}
+									if got, ok := extract(g); !ok || !reflect.DeepEqual(got, want) {
+										fail("extract-wrapped "+kind+" "+c.name, fmt.Sprintf("%s: embedded %s object not extractable after GRPCWrap (got %#v) text %q", desc, kind, got, g.Error()))
+									}
+									// crossing the wire: only code and message survive
+									wire := status.Error(status.Code(g), gerrors.FromGRPCErrorMsg(g))
+									if got, ok := extract(wire); !ok || !reflect.DeepEqual(got, want) {
+										fail("extract-wire "+kind+" "+c.name, fmt.Sprintf("%s: embedded object lost when only code+message cross the wire", desc))
+									}
+									if !gerrors.Is(wire, c.err) {
+										fail("is-wire "+c.name, desc+": class lost when only code+message cross the wire")
+									}
+								} else if _, ok := extract(g); ok {
+									fail("extract-phantom", desc+": ExtractObject reports an object although none was embedded")
+								}
+								if evals%997 == 1 {
+									samples.Add(fmt.Sprintf("%s -> %q", desc, g.Error()))
+								}
+							}
 						}
-						if d < depth {
-							e = fmt.Errorf("%s [layer %d]: %w", text, d, e)
-						}
-					}
-					desc := fmt.Sprintf("class=%s depth=%d embedAt=%d text#%d", c.name, depth, embedAt, ti)
-					evals++
-					nontriv++
-					g := gerrors.GRPCWrap(e)
-					if g == nil {
-						fail("wrap-nil "+c.name, desc+": GRPCWrap returned nil")
-						continue
-					}
-					if got := status.Code(g); got != code {
-						fail("code "+c.name, fmt.Sprintf("%s: GRPCWrap produced code %v, class maps to %v", desc, got, code))
-					}
-					if !gerrors.Is(g, c.err) {
-						fail("is-own-class "+c.name, desc+": Is(GRPCWrap(err), class) is false; error text "+fmt.Sprintf("%q", g.Error()))
-					}
-					for _, o := range classes {
-						if o.name != c.name && gerrors.Is(g, o.err) {
-							fail("is-other-class "+c.name+"->"+o.name, fmt.Sprintf("%s: Is(GRPCWrap(err), %s) is true", desc, o.name))
-						}
-					}
-					// the plain chain itself also keeps exactly its class
-					if !gerrors.Is(e, c.err) {
-						fail("is-plain "+c.name, desc+": Is(err, class) is false before wrapping")
-					}
-					g2 := gerrors.GRPCWrap(g)
-					if status.Code(g2) != status.Code(g) || g2.Error() != g.Error() {
-						fail("idempotent "+c.name, fmt.Sprintf("%s: GRPCWrap(GRPCWrap(err)) = %q/%v differs from GRPCWrap(err) = %q/%v", desc, g2.Error(), status.Code(g2), g.Error(), status.Code(g)))
-					}
-					if gerrors.GRPCStatusCode(g) != code {
-						fail("statuscode "+c.name, fmt.Sprintf("%s: GRPCStatusCode(GRPCWrap(err))=%v want %v", desc, gerrors.GRPCStatusCode(g), code))
-					}
-					var got obj
-					if embedAt >= 0 {
-						if !gerrors.ExtractObject(e, &got) || !reflect.DeepEqual(got, want) {
-							fail("extract-plain", fmt.Sprintf("%s: embedded object not extractable before GRPCWrap (got %+v)", desc, got))
-						}
-						got = obj{}
-						if !gerrors.ExtractObject(g, &got) || !reflect.DeepEqual(got, want) {
-							fail("extract-wrapped "+c.name, fmt.Sprintf("%s: embedded object not extractable after GRPCWrap (got %+v) text %q", desc, got, g.Error()))
-						}
-						// crossing the wire: only code and message survive
-						wire := status.Error(status.Code(g), gerrors.FromGRPCErrorMsg(g))
-						got = obj{}
-						if !gerrors.ExtractObject(wire, &got) || !reflect.DeepEqual(got, want) {
-							fail("extract-wire "+c.name, fmt.Sprintf("%s: embedded object lost when only code+message cross the wire", desc))
-						}
-						if !gerrors.Is(wire, c.err) {
-							fail("is-wire "+c.name, desc+": class lost when only code+message cross the wire")
-						}
-					} else if gerrors.ExtractObject(g, &got) {
-						fail("extract-phantom", desc+": ExtractObject reports an object although none was embedded")
-					}
-					if evals%97 == 1 {
-						samples.Add(fmt.Sprintf("%s -> %q", desc, g.Error()))
 					}
 				}
 			}
@@ -191,6 +256,6 @@ func main() {
 	samples.Add("all status codes 0..16 and 99 x 11 message texts through status.Error -> FromGRPCError / Is")
 	run.Finish(ev.Coverage{
 		"evaluations": evals, "distinct_nontrivial": nontriv, "samples": samples.List, "exhaustive": true,
-		"rule": "full finite product: 10 classes with a gRPC code x 12 classes x wrap depth 0..4 (fmt %w) x embedded object position (none / innermost / outermost / every position for depth<=2) x 11 message texts (empty, colons, JSON, ESC without the marker, marker prefix, unicode, a fake rpc-error text); plus all 17 gRPC codes and one out-of-range code x 11 texts. Every case is distinct; non-trivial = every case except the OK code",
+		"rule": "full finite product: 10 classes with a gRPC code x 12 classes x wrap depth 0..4 (each layer a single %w, two %w verbs, or errors.Join), innermost error the class or a real OS error of the class, embedded object a struct / string / slice / map x embedded object position (none / innermost / outermost / every position for depth<=2) x 11 message texts (empty, colons, JSON, ESC without the marker, marker prefix, unicode, a fake rpc-error text); plus all 17 gRPC codes and one out-of-range code x 11 texts. Every case is distinct; non-trivial = every case except the OK code",
 	})
 }
